@@ -112,8 +112,10 @@ def register(reg, prog):
     def log_opt_decode_exc(ex, st, env, cls):
         st.log.append(('opt_decode_raised', env['self'], env['rawdata']))
 
+    # the option views are modelled as fields independent of the codec dictionary (A-OPTVIEW), so a caller of decode
+    # must see every view of the decoded object as changed
     reg.contract('aiocoap.options:Options.decode', ghost=log_opt_decode, ghost_exc=log_opt_decode_exc,
-                 modifies=['dict:self._options', '*lists'],
+                 modifies=['dict:self._options', '*lists'] + ['self.' + v for v in sorted(reg.opt_views)],
                  params={'rawdata': BYTES}, result=BYTES,
                  raises={'UnparsableMessage': "len(head(rawdata)) > 0 and head(rawdata)[0] != 255 and (parse_one(head(option_number), head(rawdata)) is None or (is_string_option(parse_one(head(option_number), head(rawdata))[0]) and not valid_utf8(parse_one(head(option_number), head(rawdata))[1])))"},
                  only_raises=True,
